@@ -16,7 +16,7 @@ claimed = {
    note="Base streams are sampled; the allocation bound's constants are deliberately loose; allocation failure itself cannot be injected in Go.", ref="DESIGN.md §3 C09"),
  "C12": dict(cat="fault_enumeration", tech="deterministic simulation: scripted supplier (callback + context) with complete enumeration of exhaustion/error/cancellation positions per seeded base scenario; lock-step executable reference model of the funding loop over the recorded call history",
    text="Per seeded base scenario (starting tx, fee quote, supplier history) every fault position is enumerated: exhaustion, unrelated error and context cancellation at each call index. Each execution of the real Fund is checked call by call against a reference funding model (deficit passed, call discipline, terminal result, input fidelity, outputs untouched, bounded calls).",
-   note="'Estimated fee' is exact integer floor arithmetic over the library's own size estimate of the model's copy; base scenarios are sampled; inputs on error paths are unconstrained.", ref="DESIGN.md §3 C12"),
+   note="'Estimated fee' is computed independently: reference-codec size with the documented 107-byte dummy unlocking script per unsigned P2PKH input, exact integer floor arithmetic; base scenarios are sampled; inputs on error paths are unconstrained.", ref="DESIGN.md §3 C12"),
  "C18": dict(cat="exploration", tech="deterministic simulation: source-instrumented scratch copy run under a seeded cooperative scheduler with simulated RWMutex and clock; vector-clock race detection, porcupine linearizability against a sequential fee-quote model, interleaved-vs-solo equality for one shared engine",
    text="Seeded search over interleavings of caller tasks on shared FeeQuote/FeeQuotes objects (every lock op and guarded access is a yield point, clock jumps injected) and of concurrent Execute calls on one engine; data races by vector clocks, linearizability by porcupine, deadlock and solo-equality checks.",
    note="Races are detected on the instrumented shared types and written package variables of packages bt and interpreter only; dependencies run atomically; sampling, not enumeration.", ref="DESIGN.md §3 C18"),
